@@ -88,6 +88,81 @@ theorem C12_append_offsets (es : List SEntry) (ho : OffsetsOK es) (e : SEntry) :
     subst hkeq
     simp
 
+/-- What the loop wrote is exactly the records of the entries it keeps in memory. -/
+theorem writeSeq_file (file : Bytes) (es : List SEntry) :
+    (writeSeq file es).1 = file ++ fileOf (writeSeq file es).2 := by
+  induction es generalizing file with
+  | nil => simp [writeSeq]
+  | cons e es ih =>
+    simp only [writeSeq]
+    rw [ih]
+    simp [fileOf, frames_cons, logCodec]
+
+/-- The loop changes nothing but the offsets. -/
+theorem writeSeq_same (file : Bytes) (es : List SEntry) :
+    (writeSeq file es).2.map (fun e => { e with offset := 0 }) = es.map (fun e => { e with offset := 0 }) := by
+  induction es generalizing file with
+  | nil => simp [writeSeq]
+  | cons e es ih => simp only [writeSeq, List.map_cons]; rw [ih]
+
+theorem writeSeq_length (file : Bytes) (es : List SEntry) : (writeSeq file es).2.length = es.length := by
+  induction es generalizing file with
+  | nil => simp [writeSeq]
+  | cons e es ih => simp only [writeSeq, List.length_cons]; rw [ih]
+
+/-- **C12, batch append.** Appending any batch to a file of complete records with correct
+    offsets leaves a file of complete records with correct offsets — although the offset
+    is itself part of the record and so changes the record's length. -/
+theorem C12_append_batch (old es : List SEntry) (ho : OffsetsOK old) :
+    (writeSeq (fileOf old) es).1 = fileOf (old ++ (writeSeq (fileOf old) es).2) ∧
+      OffsetsOK (old ++ (writeSeq (fileOf old) es).2) := by
+  induction es generalizing old with
+  | nil => simpa [writeSeq] using ho
+  | cons e es ih =>
+    have hstep := C12_append_offsets old ho e
+    have hfile : fileOf old ++ frame (encodeLogBody { e with offset := (fileOf old).length }) =
+        fileOf (old ++ [{ e with offset := (fileOf old).length }]) := by
+      rw [show fileOf (old ++ [{ e with offset := (fileOf old).length }]) = fileOf old ++ fileOf [{ e with offset := (fileOf old).length }]
+        from frames_append _ _ _]
+      simp [fileOf, frames_cons, logCodec]
+    have := ih (old ++ [{ e with offset := (fileOf old).length }]) hstep
+    simp only [writeSeq]
+    rw [hfile]
+    simpa [List.append_assoc] using this
+
+/-- **C12, compaction.** `Compact(index)` rewrites the kept suffix into a fresh file with
+    the same loop, starting from the empty file: the new file consists of complete records
+    of exactly the kept entries (only offsets differ), and every stored offset is again the
+    record's position — so a later `Truncate` on the compacted log cuts at a record boundary
+    (`C12_truncate_exact`), and a crash after the rename reopens to exactly these entries
+    (`C12_recover_complete`). -/
+theorem C12_compact_rewrites_exactly (es : List SEntry) (k : Nat) :
+    let r := writeSeq [] (es.drop k)
+    r.1 = fileOf r.2 ∧ OffsetsOK r.2 ∧ r.2.length = es.length - k ∧
+      r.2.map (fun e => { e with offset := 0 }) = (es.drop k).map (fun e => { e with offset := 0 }) := by
+  have h := C12_append_batch [] (es.drop k) (by intro k hk; simp at hk)
+  simp only [fileOf, frames_nil, List.nil_append] at h
+  refine ⟨h.1, h.2, ?_, writeSeq_same _ _⟩
+  rw [writeSeq_length]; simp
+
+/-- Truncating a compacted log at any of its entries leaves complete records of the
+    entries in front of it. -/
+theorem C12_truncate_after_compact (es : List SEntry) (k j : Nat)
+    (hj : j < (writeSeq [] (es.drop k)).2.length) :
+    (writeSeq [] (es.drop k)).1.take ((writeSeq [] (es.drop k)).2[j]'hj).offset =
+      fileOf ((writeSeq [] (es.drop k)).2.take j) := by
+  have h := C12_compact_rewrites_exactly es k
+  simp only at h
+  rw [h.1]
+  exact C12_truncate_exact _ h.2.1 j hj
+
+/-- `DiscardEntries(index, term)` replaces the file by one placeholder record at offset 0. -/
+theorem C12_discard_exact (index term : Nat) :
+    OffsetsOK [{ index := index, term := term : SEntry }] := by
+  intro k hk
+  have : k = 0 := by simp at hk; omega
+  subst this; simp [fileOf]
+
 /-! Non-vacuity: the placeholder plus one entry; the append of a second entry is cut
     after the 4-byte header and 3 body bytes; recovery returns the first two records. -/
 def exE1 : SEntry := { index := 1, term := 1, offset := 4, data := [104, 105], kind := 1 }
@@ -96,5 +171,7 @@ example : EntryOK exE1 ∧ EntryOK exE2 ∧ (fileOf [exE2]).take 7 <+: fileOf [e
   ⟨by unfold EntryOK U64; decide, by unfold EntryOK U64; decide, List.take_prefix _ _⟩
 example : replay decodeLogBody (fileOf [{ index := 0, term := 0 }, exE1] ++ (fileOf [exE2]).take 7) =
     .ok [{ index := 0, term := 0 }, exE1] 20 := by decide
+/-- Compaction of [placeholder, e1, e2] at position 1: e1 moves to offset 0, e2 to 14. -/
+example : (writeSeq [] ([{ index := 0, term := 0 }, exE1, exE2].drop 1)).2.map (·.offset) = [0, 14] := by decide
 
 end Raft.LogFile
